@@ -136,8 +136,59 @@ EXTREME_LOADS = [-9223372036854775808, -5000000000000000000, -461168601842738790
                  2147483647, 2147483648, 4611686018427387904, 5000000000000000000, 9223372036854775807]
 
 
+_POOL = None
+
+
+def addr_pool():
+    """Proxy addresses with the country the broker's own test GeoIP tables give them (scenario input:
+    the tables are data of the repository, the country of an address is read off them, not computed by
+    the code under test).  A few addresses per country, both families, and some the tables do not list."""
+    global _POOL
+    if _POOL is not None:
+        return _POOL
+    import ipaddress
+    pool = []
+    v4 = []
+    with open(os.path.join(vlib.REPO, "broker", "test_geoip")) as fh:
+        for line in fh:
+            f = line.strip().split(",")
+            if len(f) == 3 and f[0].isdigit():
+                v4.append((int(f[0]), int(f[1]), f[2]))
+    v6 = []
+    with open(os.path.join(vlib.REPO, "broker", "test_geoip6")) as fh:
+        for line in fh:
+            f = line.strip().split(",")
+            if len(f) == 3 and ":" in f[0]:
+                v6.append((int(ipaddress.IPv6Address(f[0])), int(ipaddress.IPv6Address(f[1])), f[2]))
+
+    def country(n, table):
+        hits = set(c for lo, hi, c in table if lo <= n <= hi)
+        return hits.pop() if len(hits) == 1 else ("??" if not hits else None)
+    seen = {}
+    for lo, hi, c in v4[::37]:
+        if seen.get(c, 0) < 2 and len(seen) < 4 or (c in seen and seen[c] < 2):
+            n = (lo + hi) // 2
+            if country(n, v4) == c:
+                pool.append((str(ipaddress.IPv4Address(n)), c))
+                seen[c] = seen.get(c, 0) + 1
+    seen6 = {}
+    for lo, hi, c in v6[::53]:
+        if len(seen6) < 3 and c not in seen6 and country(lo + 5, v6) == c:
+            pool.append((str(ipaddress.IPv6Address(lo + 5)), c))
+            seen6[c] = 1
+    for a in ("192.0.2.1", "192.0.2.2"):
+        if country(int(ipaddress.IPv4Address(a)), v4) == "??":
+            pool.append((a, "??"))
+    if country(int(ipaddress.IPv6Address("2001:db8::7")), v6) == "??":
+        pool.append(("2001:db8::7", "??"))
+    if len(pool) < 6:
+        raise vlib.Inconclusive("cannot build an address pool from the repository's test GeoIP tables")
+    _POOL = pool
+    return pool
+
+
 def to_scenario(sid, steps, rng, mode="replay", fresh=False):
-    via, addr, ptype = {}, {}, {}
+    via, addr, ptype, cc = {}, {}, {}, {}
     for st in steps:
         items = st[1] if st[0] == "Wave" else [st]
         for it in items:
@@ -145,11 +196,13 @@ def to_scenario(sid, steps, rng, mode="replay", fresh=False):
                 choices = ["post", "amp"] + (["legacy"] if it[3] == "default" else [])
                 via[it[1]] = rng.choice(choices)
             elif it[0] == "ProxyRegister":
-                addr[it[1]] = "192.0.2.%d:%d" % (rng.randint(1, 6), rng.randint(1024, 65000))
+                a, c = rng.choice(addr_pool())
+                cc[a] = c
+                addr[it[1]] = ("[%s]:%d" if ":" in a else "%s:%d") % (a, rng.randint(1024, 65000))
                 ptype[it[1]] = rng.choice(PTYPES)
     norelay = {p: True for p in addr if rng.random() < 0.25}
     sc = {"id": sid, "mode": mode, "steps": steps, "via": via, "addr": addr, "ptype": ptype, "fresh": fresh,
-          "norelayext": norelay, "rollover": rng.random() < 0.04}
+          "norelayext": norelay, "rollover": rng.random() < 0.04, "cc": cc}
     # session ids that differ only in padding / case / white space (all of them distinct ids)
     sc["similarsids"] = rng.random() < 0.4
     # extreme self-reported counts: an order-preserving concretisation of the step's numbers
@@ -284,7 +337,8 @@ def run_rig(chk, scenarios, race=False, shards=None, tag="rig", watchdog=None, f
         vlib.write_ndjson(inp, part)
 
         def job(inp=inp, outp=outp):
-            env = vlib.goenv({"VERIF_IN": inp, "VERIF_OUT": outp, "GODEBUG": "asynctimerchan=0", "VERIF_WATCHDOG": watchdog or "20s"})
+            env = vlib.goenv({"VERIF_IN": inp, "VERIF_OUT": outp, "GODEBUG": "asynctimerchan=0", "VERIF_WATCHDOG": watchdog or "20s",
+                                "VERIF_GEOIP": os.path.join(vlib.REPO, "broker")})
             r = vlib.run([binary, "-test.run", "TestVerifBrokerScenarios", "-test.timeout", "600s"], cwd=d, env=env, timeout=700)
             return r, outp
         jobs.append(job)
